@@ -552,7 +552,7 @@ def run(ctx):
             out.evaluations += 1
             base, failures = eval_many_clean(n, cap, tmp)
             out.failures += failures
-            for k in sorted(rng.sample(range(len(base["calls"])), 6)):
+            for k in sorted(rng.sample(range(len(base["calls"])), min(6, len(base["calls"])))):
                 out.evaluations += 1
                 obs, failures = eval_many_fault(n, cap, k, base["calls"][k], tmp)
                 out.failures += failures
